@@ -2541,6 +2541,30 @@ impl<'de> DeserializeSeed<'de> for DeserializeAnnotations<'_> {
     }
 }
 
+impl AnnotationStore {
+    /// If `id` is a temporary public identifier (and these are stripped on deserialisation), make room so the next
+    /// inserted annotation ends up at the handle the identifier encodes (gaps are preserved, like the JSON reader does).
+    /// Returns true if the identifier is temporary and must not be kept as a public identifier.
+    pub(crate) fn reserve_for_temp_id(&mut self, id: &str) -> Result<bool, StamError> {
+        if !self.config().strip_temp_ids() || !id.starts_with("!A") {
+            return Ok(false);
+        }
+        if let Some(handle) = resolve_temp_id(id) {
+            if self.annotations.len() > handle {
+                return Err(StamError::DeserializationError(format!(
+                    "unable to resolve temporary public identifier {} for annotations",
+                    id
+                )));
+            } else if handle > self.annotations.len() {
+                self.annotations.resize_with(handle, Default::default);
+            }
+            Ok(true)
+        } else {
+            Ok(false)
+        }
+    }
+}
+
 struct AnnotationsVisitor<'a> {
     store: &'a mut AnnotationStore,
 }
